@@ -499,8 +499,10 @@ func (g *G) cdxTreeDoc(v int, inClass bool) M {
 	if !inClass && g.Chance(0.2) {
 		types = append(types, M{"n": "free", "d": "text"})
 	}
+	// a document name next to the root's own name (the class predicate excludes the documents whose
+	// root has none: there the name is the fallback for it)
 	name := ""
-	if !inClass && g.Chance(0.3) {
+	if g.Chance(0.3) {
 		name = "docname"
 	}
 	// serial numbers: canonical, and the spellings other tools write (upper case, no urn prefix, braces)
@@ -521,11 +523,14 @@ func (g *G) nativeBOM() M {
 	comp = func(depth int) M {
 		cnt++
 		ref := ""
-		switch g.Int(6) {
+		switch g.Int(7) {
 		case 0, 1, 2:
 			ref = fmt.Sprintf("c%d", cnt)
 		case 3:
 			ref = g.Pick([]string{"dup", "c1", "protobom-auto--000000002"})
+		case 6:
+			// distinct from every other reference, and equal to the previous component's up to letter case
+			ref = fmt.Sprintf("C%d", cnt-1)
 		}
 		c := M{"ref": ref, "type": g.Pick([]string{"library", "application", "file", "container", "weird", ""}), "name": g.text(),
 			"version": g.Pick([]string{"", "1.0"}), "description": "", "copyright": "", "purl": g.Pick([]string{"", "pkg:npm/a@1"}),
